@@ -129,6 +129,8 @@ impl Obs {
 
 thread_local! {
     static LAST_PANIC: RefCell<Option<(String, String, u32)>> = const { RefCell::new(None) };
+    /// true only while this thread is inside serialize_schedule / deserialize_schedule
+    static IN_CODEC: std::cell::Cell<bool> = const { std::cell::Cell::new(false) };
 }
 
 /// Replace the panic hook by one that prints nothing and remembers message + location.
@@ -145,7 +147,12 @@ pub fn install_quiet_hook() {
             .location()
             .map(|l| (l.file().to_string(), l.line()))
             .unwrap_or_else(|| ("?".into(), 0));
-        LAST_PANIC.with(|p| *p.borrow_mut() = Some((msg, file, line)));
+        if IN_CODEC.with(|c| c.get()) {
+            LAST_PANIC.with(|p| *p.borrow_mut() = Some((msg, file, line)));
+        } else {
+            // a bug of the harness itself: never silent, never a verdict
+            eprintln!("MACHINERY-ERROR: internal panic in vx-c16: '{}' at {}:{}", msg, file, line);
+        }
     }));
 }
 
@@ -157,7 +164,10 @@ fn take_panic() -> Obs {
 }
 
 pub fn observe(input: &str) -> Obs {
-    match std::panic::catch_unwind(|| deserialize_schedule(input)) {
+    IN_CODEC.with(|c| c.set(true));
+    let r = std::panic::catch_unwind(|| deserialize_schedule(input));
+    IN_CODEC.with(|c| c.set(false));
+    match r {
         Ok(None) => Obs::None,
         Ok(Some(s)) => Obs::Some(s),
         Err(_) => take_panic(),
@@ -165,7 +175,10 @@ pub fn observe(input: &str) -> Obs {
 }
 
 pub fn encode(s: &Schedule) -> Result<String, Obs> {
-    match std::panic::catch_unwind(|| serialize_schedule(s)) {
+    IN_CODEC.with(|c| c.set(true));
+    let r = std::panic::catch_unwind(|| serialize_schedule(s));
+    IN_CODEC.with(|c| c.set(false));
+    match r {
         Ok(p) => Ok(p),
         Err(_) => Err(take_panic()),
     }
